@@ -21,4 +21,9 @@ VARIANTS = [
         dict(file=R, old="            key=lambda jdx: (res_names[jdx] not in ref_names.values(), res_names[jdx])  # pylint: disable=cell-var-from-loop", new="            key=lambda jdx: (res_names[jdx] not in set(ref_names.values()), res_names[jdx])  # pylint: disable=cell-var-from-loop")]),
     dict(name='benign-lambda-var-renamed', expect='silent', edits=[
         dict(file=R, old="            key=lambda jdx: (res_names[jdx] not in ref_names.values(), res_names[jdx])  # pylint: disable=cell-var-from-loop", new="            key=lambda k: (res_names[k] not in ref_names.values(), res_names[k])  # pylint: disable=cell-var-from-loop")]),
+    dict(name='patch-bonds-one-orientation (seed C04_f)', expect='fire', key='EDGE-orientation|_patch_modification', edits=[
+        dict(file=R, old="    for mod_idx, mod_jdx in modification.edges_between(anchor_idxs, non_anchor_idxs):\n        idx = mod_to_block[mod_idx]\n        jdx = mod_to_block[mod_jdx]\n        result.add_edge(idx, jdx)",
+             new="    for mod_idx, mod_jdx in modification.edges:\n        if mod_idx in anchor_idxs and mod_jdx in non_anchor_idxs:\n            result.add_edge(mod_to_block[mod_idx], mod_to_block[mod_jdx])")]),
+    dict(name='rebuilt-atom-residue-attributes-win (seed C04_e)', expect='fire', key='PROV-rebuild|attributes', edits=[
+        dict(file=R, old="            node.update(ref_node)\n            node['atomid'] = res_idx + 1", new="            node = dict(ref_node, **node)\n            node['atomid'] = res_idx + 1")]),
 ]
